@@ -77,7 +77,8 @@ CLAIMS.update({
     "C08": dict(
         text=("Theorems over the Q model of concordance / discordance / weight comparison / outranking / kernel / strong and "
               "weak relations / distillation: outrank iff (c>=p and d<=q, never diagonal); kernel = nobody outranks; "
-              "0<=c<=sum w and c(a,b) + weight where b strictly better = sum w; d>=0 and d=0 iff nowhere worse; weight "
+              "0<=c<=sum w and c(a,b) + weight where b strictly better = sum w; d>=0 and d=0 iff nowhere worse, the numerator is "
+              "the largest shortfall (bounds every criterion's, attained) and d lies in [0,1]; weight "
               "comparison total; strong subset of weak under the threshold order; the distillation terminates within the "
               "fuel for every pair of relations, yields one rank per alternative with ranks exactly 1..k (direct and "
               "inverse), and is independent of the order in which the alternatives are listed. The distillation is the "
@@ -104,7 +105,8 @@ CLAIMS.update({
               "ideal->1, anti-ideal->0 per objective; PushNegatives shifts exactly the vectors with a negative minimum, new "
               "minimum 0; AddValueToZero adds exactly to vectors containing a zero; a matrix-target scaler acts on each "
               "column separately (col j of output = f(col j)); VectorScaler output has unit norm and StandarScaler output mean 0 "
-              "and variance 1 for ANY divisor s with s*s equal to the rational core (the real square root is one). Partial: "
+              "and variance 1 for ANY divisor s with s*s equal to the rational core (the real square root is one), also with only "
+              "with_mean or only with_std. Partial: "
               "that the code's float sqrt is such a divisor up to rounding is checked through the cores closed at 60 digits. Tie to /repo: cell-by-cell comparison with the "
               "extracted model on non-square matrices, all targets and parameter grids, plus direct normal-form oracle."),
         design="§5 C11",
@@ -117,7 +119,9 @@ CLAIMS.update({
               "negation and reciprocal (on positives) turn better-under-MIN into better-under-MAX; dominance (both strict "
               "settings) depends only on the per-criterion preference profile, so it is invariant. VectorScaler / "
               "StandarScaler are covered as instances of division by a positive constant (their constant is a real "
-              "sqrt; the rational statement is for any positive divisor). Tie to /repo: random step sequences and the "
+              "sqrt; the rational statement is for any positive divisor). At matrix level a column-wise order-preserving step "
+              "keeps the whole preference profile of every pair of alternatives, and any finite chain of such steps keeps the "
+              "dominance relation (induction over the chain). Tie to /repo: random step sequences and the "
               "same steps as a pipeline; sign matrices and dominance before/after, and against the model."),
         design="§5 C12",
         note=NOTE_COMMON + "Exact-arithmetic theorem; generated values are separated so that float rounding cannot collapse them.",
@@ -150,7 +154,9 @@ CLAIMS.update({
              "result.e_ / extra_ and private attributes are outside the property's list.",
         technique="Coq proof over an ownership abstraction + differential history testing with bitwise snapshots"),
     "C05": dict(
-        text=("PARTIAL (pipelines only by correspondence). Theorems - order of alternatives: every row-wise score and its "
+        text=("PARTIAL (pipelines beyond scaler chains + linear methods only by correspondence). Pipelines: every rational scaler "
+              "commutes with a reordering of the alternatives and a chain of any number of them followed by WSM / RatioMOORA "
+              "ranks every alternative the same whatever the listing order. Theorems - order of alternatives: every row-wise score and its "
               "WHOLE ranking follow the alternatives (rank_values commutes with reindexing), ideal / anti-ideal / reference "
               "point, the ReferencePointMOORA ranking, TOPSIS distances, similarity and ranking, MultiMOORA's dominance count, "
               "every ELECTRE table, the outranking / strong / weak / weight-comparison relations, the kernel, the ELECTRE2 "
@@ -169,7 +175,8 @@ CLAIMS.update({
               "primal/dual pair proves feasibility and optimality) over Q; the LP built for a stage (minimise rows negated, own "
               "row removed) is exactly the documented program, so a certified stage meets every documented bound and is optimal "
               "in the criterion's own sense; stage rows sum to one (or are all zero); first-method cell formula; the second "
-              "method's dominance table is the pointwise sum over stages and its scores sum to zero; values are credited by index. PARTIAL: optimality of what CBC returns is certified PER "
+              "method's dominance table is the pointwise sum over stages and its scores sum to zero; the bound of each constraint is "
+              "the supplied b (0 included) or the criterion's own extreme; values are credited by index. PARTIAL: optimality of what CBC returns is certified PER "
               "CASE - an untrusted exact simplex proposes (x*, y*), the extracted proved checker accepts it, and the "
               "implementation's stage (credited positionally) must be feasible and attain that certified optimum; the stage "
               "LP construction (senses, default and user b) is the model's and is compared through the same evaluation."),
@@ -201,7 +208,8 @@ CLAIMS.update({
               "point; nested pipelines flatten (as a step and as the last step); one name per step; copy(**overrides) changes "
               "exactly the overridden parameters and keeps the parameter set; rebuild from get_parameters is the identity. "
               "PARTIAL: step-name uniqueness is proved under the explicit side condition that no listed name equals a "
-              "generated 'x_k' (and suffix injectivity); Findings.v shows the condition cannot be dropped (known finding). "
+              "generated 'x_k' (suffix injectivity itself is proved: the last '_' separates a non-empty decimal digit string); "
+              "Findings.v shows the condition cannot be dropped (known finding). "
               "Tie to /repo: random and nested pipelines vs manual composition bit-for-bit at every split; unique_names "
               "exhaustively over a small alphabet; every introspected method class for copy / rebuild / overrides."),
         design="§5 C16",
@@ -295,7 +303,7 @@ def main():
                                "(ocaml/skcmodel) and run on the same generated inputs as the real library (harness/)"),
         }],
         "checks": checks,
-        "notes": ("fix: commits in /repo repair ten genuine defects (see known_findings.json 'fixed'); "
+        "notes": ("fix: commits in /repo repair fourteen genuine defects (see known_findings.json 'fixed'); "
                   "remaining genuine defects are listed as known findings."),
         "not_applicable": na,
     }
